@@ -1,4 +1,5 @@
 mod check;
+mod dbg;
 mod derived;
 mod json;
 mod multi;
@@ -87,7 +88,7 @@ fn case_of(subj: impl Strategy<Value = Subj>) -> impl Strategy<Value = Case> {
             Subj::Wk(Wk::LvlOpt(_)) | Subj::Wk(Wk::TraceIdOpt(_)) | Subj::Wk(Wk::SpanIdOpt(_)) => Opt::Plain,
             _ => opt,
         };
-        Case { subj, mode, opt, hops, as_map, emit_macro: false, sinks: false, enclosing }
+        Case { subj, mode, opt, hops, as_map, emit_macro: false, sinks: false, enclosing, dbg_macro: false, stacked: None }
     })
 }
 
@@ -108,6 +109,51 @@ fn emit_macro_case() -> impl Strategy<Value = Case> {
     case_of(subj).prop_map(|mut c| {
         c.emit_macro = true;
         c
+    })
+}
+
+/// `emit::dbg!` call sites: no attribute (Debug capture is promised) or any capture attribute.
+fn dbg_macro_case() -> impl Strategy<Value = Case> {
+    use Mode::*;
+    let subj = prop_oneof![
+        2 => any_i64().prop_map(Subj::I64),
+        2 => any_u64().prop_map(Subj::U64),
+        1 => u128_wide().prop_map(Subj::U128),
+        2 => f64_bits().prop_map(Subj::F64),
+        1 => f32_bits().prop_map(Subj::F32),
+        1 => any::<bool>().prop_map(Subj::Bool),
+        2 => any_text().prop_map(Subj::Str),
+        2 => any_text().prop_map(Subj::String),
+        5 => structured(),
+        2 => chain().prop_map(Subj::Err),
+    ];
+    (subj, any::<u32>(), opt(), hops(), enclosing()).prop_map(|(subj, mi, opt, hops, enclosing)| {
+        let modes: &[Mode] = match &subj {
+            Subj::F32(_) => &[Default, Default, Display, DisplayI, Debug, DebugI, Sval, SvalI, Serde, SerdeI],
+            Subj::Str(_) => &[Default, Default, Display, DisplayI, Debug, DebugI, Value, ValueI, Sval, SvalI, Serde, SerdeI, Error],
+            Subj::Node(_) => &[Default, Default, Debug, DebugI, Sval, Sval, SvalI, Serde, Serde, SerdeI],
+            Subj::Err(_) => &[Default, Default, Error, Error, Error, Display, DisplayI, Debug, DebugI],
+            _ => &[Default, Default, Display, DisplayI, Debug, DebugI, Value, Value, ValueI, Sval, SvalI, Serde, SerdeI],
+        };
+        let mode = modes[pick(mi, modes.len())];
+        Case { subj, mode, opt, hops, as_map: false, emit_macro: false, sinks: false, enclosing, dbg_macro: true, stacked: None }
+    })
+}
+
+/// Two different capture attributes on one property (props! and emit! sites).
+fn stacked_case() -> impl Strategy<Value = Case> {
+    let subj = prop_oneof![
+        2 => any_i64().prop_map(Subj::I64),
+        2 => f64_bits().prop_map(Subj::F64),
+        2 => any_text().prop_map(Subj::String),
+        3 => structured(),
+    ];
+    (subj, any::<u32>(), any::<u32>(), hops(), any::<bool>()).prop_map(|(subj, i, j, hops, emit_macro)| {
+        let set: &[Mode] = if matches!(subj, Subj::Node(_)) { &dbg::STACK_NODE } else { &dbg::STACK_PRIM };
+        let first = pick(i, set.len());
+        // a different attribute for the last position
+        let last = (first + 1 + pick(j, set.len() - 1)) % set.len();
+        Case { subj, mode: set[last], opt: Opt::Plain, hops, as_map: false, emit_macro, sinks: false, enclosing: obs::Enclosing::None, dbg_macro: false, stacked: Some(set[first]) }
     })
 }
 
@@ -132,7 +178,7 @@ fn sink_case() -> impl Strategy<Value = Case> {
             _ => &[Default, Default, Default, Value, Display, Debug, Sval, Serde],
         };
         let mode = modes[pick(mi, modes.len())];
-        Case { subj, mode, opt, hops: Vec::new(), as_map: false, emit_macro: true, sinks: true, enclosing: obs::Enclosing::None }
+        Case { subj, mode, opt, hops: Vec::new(), as_map: false, emit_macro: true, sinks: true, enclosing: obs::Enclosing::None, dbg_macro: false, stacked: None }
     })
 }
 
@@ -267,6 +313,14 @@ fn main() {
         s.require("sinks:non-finite-float", 20);
         s.gen("sink-paths", s.n(6_000, 200_000), sink_case, sites::check);
         c13::sinks::shutdown();
+
+        // dbg! (shared runtime, anonymous default capture) and stacked capture attributes
+        s.require("site:dbg-macro", 3000);
+        s.require("site:dbg-macro-with-attribute", 2000);
+        s.require("site:dbg-macro-no-attribute", 500);
+        s.require("site:stacked-attributes", 2000);
+        s.gen("dbg-macro", s.n(40_000, 1_200_000), dbg_macro_case, sites::check);
+        s.gen("stacked-attributes", s.n(24_000, 700_000), stacked_case, sites::check);
 
         // three properties per call, any subset optional / None, every source order, props!/emit!/info!
         s.require("siblings:none-sorts-before-a-present-sibling", 2000);
